@@ -7,8 +7,8 @@ RULE = 'valid replies, every single-bit corruption of the first 64 bytes of a va
 def generate_core(rng, tier):
     ops = []
     m = 40 if tier == 'thorough' else 3
-    for _ in range(m):
-        sec = codec.secret_of(rng)
+    for it in range(m):
+        sec = rbytes(rng, [256, 300, 257][it]) if it < 3 else codec.secret_of(rng)
         rq = rbytes(rng, 16)
         code = rng.choice([2, 3, 11, 5])
         attrs = codec.rand_attrs(rng, maxn=4)
@@ -17,6 +17,10 @@ def generate_core(rng, tier):
             attrs.insert(rng.randrange(len(attrs) + 1), (80, None))
         pkt = radius.build(code, rng.randrange(256), b'\0' * 16, attrs, sec, reqauth=rq)
         ops.append('op parse %s %s %s' % (hx(sec), hx(rq), hx(pkt)))
+        # signed with a prefix of the secret (also: with what is left of its length in 8 bits, the empty secret for 256)
+        for cut in (len(sec) % 256 if len(sec) >= 256 else len(sec) - 1, len(sec) // 2):
+            forged = radius.build(code, rng.randrange(256), b'\0' * 16, attrs, sec[:cut], reqauth=rq)
+            ops.append('op parse %s %s %s' % (hx(sec), hx(rq), hx(forged)))
         nbits = min(len(pkt), 64) * 8
         for bit in range(nbits):
             b = bytearray(pkt)
